@@ -61,7 +61,7 @@ func main() {
 	os.WriteFile(fw, image, 0o644)
 	t0 := fx.T0
 	tsf := func(t time.Time) string { return "--timestamp=" + t.Format(time.RFC3339) }
-	cmds := []cmdSpec{
+	allCmds := []cmdSpec{
 		{"bootstrap", []string{"bootstrap", tsf(t0)}, t0, false},
 		{"rotate", []string{"rotate", tsf(t0.Add(30 * 24 * time.Hour))}, t0.Add(30 * 24 * time.Hour), false},
 		// A rotation whose certificate object name collides with an existing one (serial 2 is the
@@ -73,7 +73,23 @@ func main() {
 		{"rotate serial=9", []string{"rotate", "--rotated_key_serial_override=9", tsf(t0.Add(60 * 24 * time.Hour))}, t0.Add(60 * 24 * time.Hour), false},
 		{"rotate serial=9 --keep_going (collides)", []string{"rotate", "--rotated_key_serial_override=9", "--keep_going", tsf(t0.Add(75 * 24 * time.Hour))}, t0.Add(75 * 24 * time.Hour), true},
 		{"rotate cn=X", []string{"rotate", "--signing_key_cn=X", tsf(t0.Add(400 * 24 * time.Hour))}, t0.Add(400 * 24 * time.Hour), false},
-	}[:mc.Pick(r, 6, 7)]
+	}
+	// Histories are lines through these commands. Quick: two orders (the replacing rotation before
+	// and after a refused one; the serial-9 pair first); thorough adds the new-common-name rotation and
+	// every ordered selection of three of the five rotations after bootstrap.
+	orders := [][]int{{0, 1, 3, 2, 4, 5}, {0, 4, 5, 1, 2, 3}}
+	if r.Thorough() {
+		orders[0] = append(orders[0], 6)
+		for a := 1; a <= 5; a++ {
+			for b := 1; b <= 5; b++ {
+				for c := 1; c <= 5; c++ {
+					if a != b && b != c && a != c {
+						orders = append(orders, []int{0, a, b, c})
+					}
+				}
+			}
+		}
+	}
 	type shape struct {
 		name string
 		args []string
@@ -101,66 +117,79 @@ func main() {
 	// (one process running the whole history), for the authorities that keep state of their own.
 	modes = append(modes, mode{kmfx.MemGcs, true}, mode{kmfx.LocalLocal, true})
 	for _, md := range modes {
-		kind := md.kind
-		w := kmfx.NewWorld(kind)
-		w.OneProcess = md.oneProcess
-		if md.oneProcess {
-			kind += "(one-process)"
-		}
-		var all []issued
-		var hist []string
-		for step, c := range cmds {
-			hist = append(hist, c.name)
-			if err := w.CLI(c.args...); err != nil {
-				if !c.mayFail {
-					// the statement quantifies over key histories that happened; a refused command
-					// ends this one (counted, not judged)
-					r.Outcome("history-command-refused:" + c.name)
+		for oi, order := range orders {
+			kind := md.kind
+			if r.Thorough() && oi >= 2 && !md.oneProcess && kind != kmfx.MemGcs {
+				continue // the order sweep runs on the storage-backed authority and the one-process modes
+			}
+			var cmds []cmdSpec
+			for _, i := range order {
+				cmds = append(cmds, allCmds[i])
+			}
+			w := kmfx.NewWorld(kind)
+			w.OneProcess = md.oneProcess
+			if md.oneProcess {
+				kind += "(one-process)"
+			}
+			var all []issued
+			var hist []string
+			for step, c := range cmds {
+				hist = append(hist, c.name)
+				if err := w.CLI(c.args...); err != nil {
+					if !c.mayFail {
+						// the statement quantifies over key histories that happened; a refused command
+						// ends this one (counted, not judged)
+						r.Outcome("history-command-refused:" + c.name)
+						break
+					}
+					hist[len(hist)-1] += " [refused]"
+					r.Outcome("command-refused")
+				}
+				r.Transition(1)
+				st := w.Inspect()
+				if st.Root == nil {
+					r.Outcome("no-root-certificate-after:" + c.name) // nothing to verify under; counted only
 					break
 				}
-				hist[len(hist)-1] += " [refused]"
-				r.Outcome("command-refused")
-			}
-			r.Transition(1)
-			st := w.Inspect()
-			if st.Root == nil {
-				r.Outcome("no-root-certificate-after:" + c.name) // nothing to verify under; counted only
-				break
-			}
-			roots := x509.NewCertPool()
-			roots.AddCert(st.Root)
-			// Issue endorsements with the current primary key.
-			for si, sh := range shapes {
-				id := fmt.Sprintf("kind=%s history=%s endorse=[%s]", kind, strings.Join(hist, ";"), sh.name)
-				out := filepath.Join(kmfx.ScratchRoot(), fmt.Sprintf("out-%s-%d-%d", kind, step, si))
-				os.MkdirAll(out, 0o755)
-				args := append([]string{"endorse", "--uefi=" + fw, "--out_root=" + out, "--out_dir=o", tsf(c.ts.Add(time.Hour))}, sh.args...)
-				err := w.CLI(args...)
-				r.Eval()
-				r.Transition(1)
-				if err != nil {
-					// the statement is about the endorsement the pipeline writes; a refusal writes none
-					r.Outcome("endorse-refused")
-					continue
+				roots := x509.NewCertPool()
+				roots.AddCert(st.Root)
+				// Issue endorsements with the current primary key.
+				for si, sh := range shapes {
+					id := fmt.Sprintf("kind=%s history=%s endorse=[%s]", kind, strings.Join(hist, ";"), sh.name)
+					out := filepath.Join(kmfx.ScratchRoot(), fmt.Sprintf("out-%s-%d-%d", kind, step, si))
+					os.MkdirAll(out, 0o755)
+					args := append([]string{"endorse", "--uefi=" + fw, "--out_root=" + out, "--out_dir=o", tsf(c.ts.Add(time.Hour))}, sh.args...)
+					err := w.CLI(args...)
+					r.Eval()
+					r.Transition(1)
+					if err != nil {
+						// the statement is about the endorsement the pipeline writes; a refusal writes none
+						r.Outcome("endorse-refused")
+						continue
+					}
+					b, err := os.ReadFile(filepath.Join(out, "o", "endorsement.binarypb"))
+					os.RemoveAll(out)
+					if err != nil {
+						r.Outcome("endorse-wrote-no-file")
+						continue
+					}
+					all = append(all, issued{id, step, b})
+					if r.State(id) && si%7 == 0 {
+						r.Sample(map[string]any{"authority": kind, "history": append([]string(nil), hist...), "endorse_request": sh.name, "endorsement_bytes": len(b)})
+					}
 				}
-				b, err := os.ReadFile(filepath.Join(out, "o", "endorsement.binarypb"))
-				os.RemoveAll(out)
-				if err != nil {
-					r.Outcome("endorse-wrote-no-file")
-					continue
-				}
-				all = append(all, issued{id, step, b})
-				if r.State(id) && si%7 == 0 {
-					r.Sample(map[string]any{"authority": kind, "history": append([]string(nil), hist...), "endorse_request": sh.name, "endorsement_bytes": len(b)})
+				// Verify everything issued so far.
+				for _, is := range all {
+					is := is
+					checkOne(r, ctx, kind, is, step, strings.Join(hist, ";"), st.Root, roots, prodPolicy, is.step == step)
 				}
 			}
-			// Verify everything issued so far.
-			for _, is := range all {
-				is := is
-				checkOne(r, ctx, kind, is, step, strings.Join(hist, ";"), st.Root, roots, prodPolicy, is.step == step)
-			}
+			w.Drop()
 		}
-		w.Drop()
+	}
+	if r.Evaluations() == 0 && !r.Replaying() {
+		// not a verdict on the code: nothing could be produced, so nothing was verified
+		r.Cap("no key history could be built (bootstrap refused): nothing was verified")
 	}
 	r.Finish()
 }
